@@ -4,7 +4,8 @@ import XmppModel.Model.Ibb
 
 On the wire the base64 text of a data packet is the *character data* of the `<data/>` element.
 XML lets a sender serialise character data in several pieces: runs of plain text, CDATA
-sections, numeric character references; comments contribute nothing.  An XML parser reports
+sections, numeric character references (comments and processing instructions are not allowed in an
+XMPP stream at all: the session refuses them before any handler runs).  An XML parser reports
 them as several character-data tokens.  The payload of the packet is ALL of it, in order
 (`ibb/payloads.go`, `dataPayload.UnmarshalXML`: a `,chardata` field accumulates every piece).
 -/
@@ -15,14 +16,12 @@ inductive Seg
   | text (b : Bytes)       -- a run of plain text
   | cdata (b : Bytes)      -- `<![CDATA[ … ]]>`
   | charRefs (b : Bytes)   -- `&#N;` / `&#xH;`, one reference per byte
-  | comment (b : Bytes)    -- `<!-- … -->`: no character data
   deriving DecidableEq, Repr
 
 def Seg.content : Seg → Bytes
   | .text b => b
   | .cdata b => b
   | .charRefs b => b
-  | .comment _ => []
 
 /-- the character data of the element: every piece, in order -/
 def bodyText : List Seg → Bytes
@@ -45,13 +44,12 @@ def lastPiece : List Seg → Bytes
   | [s] => s.content
   | _ :: s :: ss => lastPiece (s :: ss)
 
-/-- pieces as `(kind, bytes)` pairs, kind 0 text / 1 CDATA / 2 character references / 3 comment
+/-- pieces as `(kind, bytes)` pairs, kind 0 text / 1 CDATA / anything else character references
 (the form in which `harness facts` emits its probe table) -/
 def Seg.ofCode : Nat × Bytes → Seg
   | (0, b) => .text b
   | (1, b) => .cdata b
-  | (2, b) => .charRefs b
-  | (_, b) => .comment b
+  | (_, b) => .charRefs b
 
 /-- the serialisations on which the real handler is probed by `harness facts` (the same list, in
 the same order, is `bodyUniverse` in `harness/c15/facts.go`).  `QUJD` `REVG` `R0hJ` are the base64
